@@ -27,6 +27,8 @@ type wfGen struct {
 	Twins bool
 	// PreferFlows biases start nodes and connection sources towards flows used as members.
 	PreferFlows bool
+	// PBatch: per-mille probability that a leaf is a batch node (KBatch) with 0..3 items.
+	PBatch int
 }
 
 // error flavours a scripted callback can fail with (see mkErr)
@@ -80,6 +82,23 @@ func (g wfGen) outcome(rt *rapid.T, p int, label string) Outcome {
 
 func (g wfGen) leaf(rt *rapid.T) *LeafSpec {
 	l := &LeafSpec{}
+	if g.PBatch > 0 && perMille(rt, g.PBatch, "batchleaf") {
+		l.Kind, l.N = KBatch, 1
+		nv := rapid.IntRange(1, max(1, g.MaxVisits)).Draw(rt, "nvisits")
+		for v := 0; v < nv; v++ {
+			var s VisitScript
+			s.Prep = g.outcome(rt, g.PErr, "prep")
+			ni := uniform(rt, 4, "nitems")
+			for a := 0; a < ni; a++ {
+				s.Exec = append(s.Exec, Outcome{Pay: a}) // items never fail in generated scenarios
+			}
+			s.Post = g.outcome(rt, g.PErr, "post")
+			s.Post.Pay %= 2
+			s.Action = rapid.SampledFrom(g.Actions).Draw(rt, "action")
+			l.Visits = append(l.Visits, s)
+		}
+		return l
+	}
 	if len(g.Kinds) > 0 {
 		l.Kind = rapid.SampledFrom(g.Kinds).Draw(rt, "kind")
 	} else {
@@ -236,6 +255,16 @@ func (w *WF) recursive() bool {
 		}
 	}
 	return false
+}
+
+// batchClass: class label for scenarios in which a batch node is a member of a flow.
+func (w *WF) batchClass() []string {
+	for _, n := range w.Nodes {
+		if n.Leaf != nil && n.Leaf.Kind == KBatch {
+			return []string{"batch-node-in-flow"}
+		}
+	}
+	return nil
 }
 
 func (w *WF) runs() int {
